@@ -8,7 +8,7 @@ def _has(prop, scenario, key):
     try:
         from . import bootstrap
 
-        bootstrap.reset_process_state()
+        bootstrap.reset_process_state(scenario)
         sim = prop.execute(scenario)
     except Exception:
         return False
